@@ -756,6 +756,8 @@ int main(int argc, char **argv) {
     } else if (PROP == "C05") {
         c05_bends(T ? 4 : 2);
         for (double pen : {0.5, 1.0, 2.0, 3.0, 10.0}) { c05_phase(4, 1, pen, false); c05_phase(4, 2, pen, false); }   // 1 and 3 cells: exact ties between "one more bend" and "k more cells"
+        // penalties BELOW one library unit (0.5 and 0.25): rival routes of equal length differ in cost by less than 1, the scale at which an integer-truncated comparison goes wrong
+        for (double pen : {0.05, 0.025}) { c05_phase(4, 1, pen, false); c05_phase(4, 2, pen, false); } c05_phase(4, 1, 0.05, true);
         c05_phase(3, 1, 2, true); c05_phase(4, 1, 2, true); c05_phase(4, 2, 2, true); c05_phase(4, 3, 2, false); c05_phase(4, 3, 1, false);
         c05_star_phase(4, 1, 2); c05_star_phase(4, 2, 2); c05_star_phase(4, 2, 0.5); c05_star_phase(3, 3, 1);
         c05_reconfig_phase(4, 1, {0.5, 1, 0.5, 3, 0.5, 10, 1, 3, 1, 10, 3, 10, 0.5}); c05_reconfig_phase(4, 2, {1, 10, 0.5}); c05_reconfig_phase(5, 2, {0.5, 1, 0.5, 3, 0.5, 10, 1, 3, 1, 10, 3, 10, 0.5}, true);
